@@ -372,6 +372,9 @@ pub struct OCfg {
     pub datagram: bool,
     pub ctrl: CtrlMode,
     pub class_zero_octet_strings: bool,
+    /// types left out of class 0 answers (binary, double, bo-status, counter, frozen counter, analog, ao-status, octet string)
+    pub class_zero_off: [bool; 8],
+    pub max_read_headers: Option<u16>,
 }
 
 impl Default for OCfg {
@@ -396,6 +399,8 @@ impl Default for OCfg {
             datagram: false,
             ctrl: CtrlMode::AllSuccess,
             class_zero_octet_strings: false,
+            class_zero_off: [false; 8],
+            max_read_headers: None,
         }
     }
 }
@@ -433,6 +438,18 @@ impl OCfg {
         c.features.respond_to_any_master = f(self.any_master);
         c.decode_level = if self.decode_all { decode_everything() } else { DecodeLevel::nothing() };
         c.class_zero.octet_string = self.class_zero_octet_strings;
+        let off = self.class_zero_off;
+        c.class_zero.binary &= !off[0];
+        c.class_zero.double_bit_binary &= !off[1];
+        c.class_zero.binary_output_status &= !off[2];
+        c.class_zero.counter &= !off[3];
+        c.class_zero.frozen_counter &= !off[4];
+        c.class_zero.analog &= !off[5];
+        c.class_zero.analog_output_status &= !off[6];
+        c.class_zero.octet_string &= !off[7];
+        if self.max_read_headers.is_some() {
+            c.max_read_request_headers = self.max_read_headers;
+        }
         c
     }
     pub fn link(&self) -> LinkSettings {
